@@ -3,6 +3,7 @@ package props
 import (
 	"fmt"
 	"os"
+	"sort"
 	"strings"
 
 	"github.com/gdamore/tcell/v2"
@@ -124,14 +125,55 @@ func C17(r *core.Run) {
 		}
 		byLC[s.lc] = append(byLC[s.lc], s)
 	}
-	for _, lc := range order {
-		os.Setenv("LC_ALL", lc)
+	// "the locale selects": the same locale expressed in the four ways POSIX allows
+	// (an empty variable counts as unset; LC_ALL before LC_CTYPE before LANG), and the
+	// alternate screen switched off for half of the groups (TCELL_ALTSCREEN=disable)
+	defer func() {
+		for _, v := range []string{"LC_CTYPE", "LANG", "TCELL_ALTSCREEN"} {
+			os.Unsetenv(v)
+		}
+	}()
+	forms := map[string]int64{}
+	for li, lc := range order {
+		form := (li + int(r.Seed)) % 4
+		for _, v := range []string{"LC_ALL", "LC_CTYPE", "LANG", "TCELL_ALTSCREEN"} {
+			os.Unsetenv(v)
+		}
+		var fname string
+		switch form {
+		case 0:
+			fname = "LC_ALL"
+			os.Setenv("LC_ALL", lc)
+			os.Setenv("LANG", "en_US.UTF-8")
+		case 1:
+			fname = "LC_ALL empty, LC_CTYPE"
+			os.Setenv("LC_ALL", "")
+			os.Setenv("LC_CTYPE", lc)
+			os.Setenv("LANG", "en_US.UTF-8")
+		case 2:
+			fname = "LC_ALL unset, LC_CTYPE empty, LANG"
+			os.Setenv("LC_CTYPE", "")
+			os.Setenv("LANG", lc)
+		case 3:
+			fname = "LC_CTYPE over LANG"
+			os.Setenv("LC_CTYPE", lc)
+			os.Setenv("LANG", "C.UTF-8")
+		}
+		if (li/2+int(r.Seed))%2 == 1 {
+			os.Setenv("TCELL_ALTSCREEN", "disable")
+			fname += ", TCELL_ALTSCREEN=disable"
+		}
+		forms[fname]++
 		group := byLC[lc]
 		core.Parallel(len(group), func(gi int) {
 			c17session(r, group[gi], runes)
 		})
 	}
+	r.Set("locale_forms_used", forms)
 	// UTF-8: everything is displayed as itself, nothing via ACS
+	for _, v := range []string{"LC_ALL", "LC_CTYPE", "LANG", "TCELL_ALTSCREEN"} {
+		os.Unsetenv(v)
+	}
 	os.Setenv("LC_ALL", "en_US.UTF-8")
 	c17session(r, c17sess{cs: "UTF-8", lc: "en_US.UTF-8", entry: "xterm"}, runes[:min(len(runes), 3000)])
 }
@@ -162,7 +204,9 @@ func c17session(r *core.Run, se c17sess, runes []rune) {
 	}
 	defer func() { ft.BeginFini(); s.Fini() }()
 	if got := s.CharacterSet(); !strings.EqualFold(got, se.cs) {
-		r.Inconclusive(fmt.Sprintf("screen charset %q, wanted %q", got, se.cs))
+		// the locale selects se.cs, the screen would write every cell in another encoding
+		r.CaseN(1, 1)
+		r.Violate("charset-selection|"+csFamily(se.cs), fmt.Sprintf("the locale (LC_ALL=%q LC_CTYPE=%q LANG=%q) selects %s, but the screen uses %q", os.Getenv("LC_ALL"), os.Getenv("LC_CTYPE"), os.Getenv("LANG"), se.cs, got), map[string]any{"charset": se.cs, "entry": se.entry})
 		return
 	}
 	utf8 := se.cs == "UTF-8"
@@ -384,6 +428,37 @@ func c17session(r *core.Run, se c17sess, runes []rune) {
 		}
 		errCheck("fallback history")
 		r.Case(fmt.Sprintf("fb|%s|%s|%d", se.cs, se.entry, rn))
+	}
+	// registration changes for runes the terminal shows through its ACS map: the glyph has
+	// priority over a registered fallback, and unregistering must not take it away
+	var acsRunes []rune
+	for rn := range glyphs {
+		if _, enc := se.encodable(rn); !enc && !utf8 {
+			acsRunes = append(acsRunes, rn)
+		}
+	}
+	sort.Slice(acsRunes, func(i, j int) bool { return acsRunes[i] < acsRunes[j] })
+	for k := 0; k < 6 && len(acsRunes) > 0; k++ {
+		rn := acsRunes[rg.IntN(len(acsRunes))]
+		x, y := rg.IntN(W/2)*2, rg.IntN(H)
+		s.Clear()
+		s.SetContent(x, y, rn, nil, tcell.StyleDefault)
+		s.Show()
+		if !checkCell(rn, nil, x, y, "ACS rune before RegisterRuneFallback") {
+			break
+		}
+		s.RegisterRuneFallback(rn, "=")
+		fallbacks[rn] = "="
+		s.Sync()
+		ok1 := checkCell(rn, nil, x, y, "ACS rune after RegisterRuneFallback(\"=\")")
+		s.UnregisterRuneFallback(rn)
+		delete(fallbacks, rn)
+		s.Sync()
+		if ok1 && !checkCell(rn, nil, x, y, "ACS rune after UnregisterRuneFallback") {
+			break
+		}
+		errCheck("acs fallback history")
+		r.Case(fmt.Sprintf("fbacs|%s|%s|%d", se.cs, se.entry, rn))
 	}
 	if se.entry == "xterm" {
 		r.Sample(5, map[string]any{"charset": se.cs, "entry": se.entry, "runes": len(runes), "example": fmt.Sprintf("%U", runes[:6])})
